@@ -256,16 +256,20 @@ func TestStrings(t *testing.T) {
 var enumAlphabet = []byte("0189m/H'x")
 
 func TestEnumShort(t *testing.T) {
+	maxLen := 5
+	if h.Thorough() {
+		maxLen = 6
+	}
 	h.RunEnum(t, h.Enum[strCase]{
-		Prop: "C10", Name: "enum-len<=4",
-		Rule: "complete enumeration of all 7381 strings of length <= 4 over {0,1,8,9,m,/,H,',x}; every string counts as non-trivial (distinct by construction)",
+		Prop: "C10", Name: "enum-short-strings",
+		Rule: fmt.Sprintf("complete enumeration of all strings of length <= %d over {0,1,8,9,m,/,H,',x} (66 430 for length <= 5, 597 871 for <= 6); every string counts as non-trivial (distinct by construction)", maxLen),
 		Each: func(yield func(strCase) bool) {
 			var rec func(prefix []byte, depth int) bool
 			rec = func(prefix []byte, depth int) bool {
 				if !yield(strCase{S: h.S(prefix)}) {
 					return false
 				}
-				if depth == 4 {
+				if depth == maxLen {
 					return true
 				}
 				for _, ch := range enumAlphabet {
